@@ -262,8 +262,11 @@ def cbmc_cmd(cfile, inst, witness, trace=False):
     if witness:
         cmd.append('-DVF_WITNESS')
     if trace:
-        # full (unsliced) trace so that every logged input and every visible operation is present
+        # trace run: unsliced by default (every logged input and visible operation is present);
+        # sliced when the runtime keeps them relevant (-DVF_TRACE_RUN)
         cmd.append('--trace')
+        if inst.get('_sliced_trace'):
+            cmd.append('--slice-formula')
         for p in trace if isinstance(trace, (list, tuple)) else []:
             cmd += ['--property', p]
     else:
@@ -575,7 +578,19 @@ def run_instance(inst, tier):
     fails = [r for r in props if r['status'] == 'FAILURE']
     if fails:
         # second run, unsliced and with traces, restricted to the failing properties
-        m2 = run_cbmc(inst, prep, False, trace=[r['property'] for r in fails][:8])
+        # first a cheap trace run on the SLICED formula (inputs / schedule markers are kept relevant by
+        # -DVF_TRACE_RUN, see rt/cbmc_rt.h) for harness checks; the full unsliced run otherwise
+        want = [r['property'] for r in fails][:8]
+        m2 = None
+        if all(classify(r['description']) in ('check', 'race') for r in fails[:8]):
+            i2 = dict(inst)
+            i2['rt_defs'] = dict(inst.get('rt_defs', {}), VF_TRACE_RUN=1)
+            i2['_sliced_trace'] = True
+            m2 = run_cbmc(i2, prep, False, trace=want)
+            if m2['status'] != 'done' or not any(x.get('trace') for x in m2.get('results', [])):
+                m2 = None
+        if m2 is None:
+            m2 = run_cbmc(inst, prep, False, trace=want)
         if m2['status'] == 'done':
             byid = {r['property']: r for r in m2['results']}
             confirmed = []
